@@ -368,13 +368,22 @@ impl ActionsGenerator for ProductionActionsGenerator<'_> {
                                     let mut a_i = format_ident!("{}", a.name);
                                     let mut b_i = format_ident!("{}", b.name);
                                     // Find which one is a vector
-                                    if b.ref_type == nonterminal.name {
+                                    let right_recursive = b.ref_type == nonterminal.name;
+                                    if right_recursive {
                                         (a_i, b_i) = (b_i, a_i)
                                     }
-                                    body.push(if recursive.get() {
-                                        parse_quote! { #a_i.push(Box::new(#b_i)) }
-                                    } else {
-                                        parse_quote! { #a_i.push(#b_i) }
+                                    // For right recursion (`A: B A | B`) the
+                                    // vector holds what follows the element
+                                    // so the element goes to the front.
+                                    body.push(match (recursive.get(), right_recursive) {
+                                        (true, false) => {
+                                            parse_quote! { #a_i.push(Box::new(#b_i)) }
+                                        }
+                                        (false, false) => parse_quote! { #a_i.push(#b_i) },
+                                        (true, true) => {
+                                            parse_quote! { #a_i.insert(0, Box::new(#b_i)) }
+                                        }
+                                        (false, true) => parse_quote! { #a_i.insert(0, #b_i) },
                                     });
                                     body.push(parse_quote! { #a_i });
                                 }
